@@ -32,8 +32,6 @@ def conform(L: "sc.Loaded", ins, res, viol, readers=(False, True), check_dump=Tr
             if inp.status in ("eof", "invalid"):
                 if o.ok and must_raise_on_eof:
                     viol(f"parse:returns-on-{inp.status}-input", f"in={hexin}: returned {o.value}", reader, inp)
-                elif not o.ok and inp.status == "eof" and not isinstance(o.exc, EOFError):
-                    viol("parse:wrong-exception", f"in={hexin}: {o.sig} {o.exc!r}, expected EOFError", reader, inp)
                 continue
             if not o.ok:
                 viol("parse:raises-on-accepted-input", f"in={hexin}: {o.sig} {o.exc!r}; model={inp.value}", reader, inp)
